@@ -509,6 +509,74 @@ Proof.
   eexists. split; [vm_compute; reflexivity|]. left. reflexivity.
 Qed.
 
+(** *** the unchanged code: on histories in which no multi-filter packet carries a
+    malformed filter the code (flag on) and the repaired model coincide, so every
+    theorem above holds for the unchanged code on those histories *)
+Definition clean_op (o : op) : bool :=
+  match o with
+  | Sub _ fqs => forallb (fun fq => wf_filter (fst fq)) fqs || (List.length fqs <=? 1)%nat
+  | Unsub _ fs => forallb wf_filter fs || (List.length fs <=? 1)%nat
+  | Disc _ => true
+  end.
+
+Lemma abort_eq_skip_valid : forall fs c n,
+  forallb wf_filter fs = true -> tm_unsubscribe_abort c fs n = tm_unsubscribe_skip c fs n.
+Proof.
+  induction fs as [|f r IH]; intros c n Hv; [reflexivity|].
+  cbn [forallb] in Hv. apply andb_true_iff in Hv as [Hv1 Hv2].
+  cbn [tm_unsubscribe_abort tm_unsubscribe_skip]. rewrite split_topic_spec, Hv1. now apply IH.
+Qed.
+
+Lemma abort_eq_skip_short : forall fs c n,
+  (List.length fs <=? 1)%nat = true -> tm_unsubscribe_abort c fs n = tm_unsubscribe_skip c fs n.
+Proof.
+  intros [|f [|g r]] c n H; [reflexivity | | discriminate].
+  cbn [tm_unsubscribe_abort tm_unsubscribe_skip]. destruct (split_topic f); reflexivity.
+Qed.
+
+Lemma forallb_wf_lfilters (c : cid) (m : lmap) : all_wf m -> forallb wf_filter (lfilters c m) = true.
+Proof.
+  intro Hm. apply forallb_forall. intros f Hin. apply In_lfilters in Hin as [v Hin].
+  exact (Hm _ _ _ Hin).
+Qed.
+
+Lemma state_eta (s : state) : {| trie := trie s; sess := sess s |} = s.
+Proof. destruct s; reflexivity. Qed.
+
+Lemma next_pinned_clean (s : state) (o : op) :
+  clean_op o = true -> all_wf (sess s) ->
+  next pinned_code s o = next ideal s o /\ all_wf (sess (next ideal s o)).
+Proof.
+  intros Hc Hw. unfold next.
+  destruct o as [c fqs | c fs | c]; cbn [step ideal pinned_code q_abort_on_malformed negb andb clean_op] in *.
+  - rewrite forallb_valid_wf.
+    destruct (forallb (fun fq => wf_filter (fst fq)) fqs) eqn:Ev; cbn [negb].
+    + split; [reflexivity|]. destruct (tm_subscribe c fqs (trie s)) as [n' [|]]; cbn [fst sess]; [|exact Hw].
+      now apply all_wf_lsub.
+    + cbn [orb] in Hc. split; [|exact Hw]. destruct fqs as [|[f q] [|fq2 r]]; [discriminate | | discriminate].
+      cbn [forallb fst andb] in Ev. rewrite andb_true_r in Ev.
+      cbn [tm_subscribe]. rewrite split_topic_spec, Ev. cbn [fst]. apply state_eta.
+  - cbn [fst sess]. split.
+    + unfold tm_unsubscribe. cbn. f_equal. apply orb_true_iff in Hc as [Hc|Hc].
+      * now rewrite abort_eq_skip_valid.
+      * now rewrite abort_eq_skip_short.
+    + intros c' f' q' Hin. apply In_lunsub in Hin as [Hin _]. exact (Hw _ _ _ Hin).
+  - cbn [fst sess]. split.
+    + unfold tm_unsubscribe. cbn. f_equal. apply abort_eq_skip_valid. now apply forallb_wf_lfilters.
+    + intros c' f' q' Hin. apply In_ldrop in Hin as [_ Hin]. exact (Hw _ _ _ Hin).
+Qed.
+
+Theorem unchanged_code_on_clean_histories (ops : list op) :
+  forallb clean_op ops = true -> run pinned_code ops = run ideal ops.
+Proof.
+  unfold run. assert (G : forall ops s, forallb clean_op ops = true -> all_wf (sess s) ->
+    fold_left (next pinned_code) ops s = fold_left (next ideal) ops s).
+  { induction ops0 as [|o r IH]; intros s Hc Hw; [reflexivity|].
+    cbn [forallb] in Hc. apply andb_true_iff in Hc as [Hc1 Hc2].
+    destruct (next_pinned_clean s o Hc1 Hw) as [E Hw']. cbn [fold_left]. rewrite E. now apply IH. }
+  intro Hc. apply G; [exact Hc | intros c f q []].
+Qed.
+
 (** the same for UNSUBSCRIBE [a+; a/b]: acknowledged, forgotten by the session, kept by the trie *)
 Theorem refuted_q_abort_on_malformed_unsub :
   exists ops T c q,
